@@ -427,6 +427,26 @@ pub fn run(ctx: &Ctx) {
         v
     }, super::c19::check_key_lens);
 
+    ctx.exhaustive("cipher_document_shapes", "decrypt_asn1 on SM2Cipher documents with 6 shapes per INTEGER (minimal, redundant 00, negative, empty, wrong tag, long-form length) x 6 hash shapes x 5 ciphertext shapes x 7 outer shapes (long-form / indefinite length, extra element, trailing byte, SET, overstated length) — all single and pairwise deviations plus a diagonal: never a panic", || {
+        let mut v = Vec::new();
+        for x in 0..6u8 {
+            for y in 0..6u8 {
+                for hash in 0..6u8 {
+                    for c2 in 0..5u8 {
+                        for outer in 0..7u8 {
+                            // all pairs of fields at full resolution, the other fields standard; plus a diagonal through the full grid
+                            let nonstd = (x != 0) as u8 + (y != 0) as u8 + (hash != 0) as u8 + (c2 != 0) as u8 + (outer != 0) as u8;
+                            if nonstd <= 2 || (x + 2 * y + 3 * hash + 5 * c2 + outer) % 11 == 0 {
+                                v.push(super::c19::CipherDocShape { x, y, hash, c2, outer, compressed: (x + y + hash + c2 + outer) % 2 == 1 });
+                            }
+                        }
+                    }
+                }
+            }
+        }
+        v
+    }, super::c19::check_cipher_doc_shape);
+
     ctx.exhaustive("key_document_shapes", "SPKI and PKCS#8 documents (DER and PEM) around a genuine key with every combination of 6 algorithm OIDs x 10 AlgorithmIdentifier parameter shapes (curve OID, absent, NULL, another curve, empty / explicit SEQUENCE, INTEGER, OCTET STRING, extra element, empty OID) x 5 ECPrivateKey parameter shapes x 3 versions x 3 public-key shapes: never a panic, an accepted document yields the embedded key, the standard shape is accepted", || {
         let mut v = Vec::new();
         for alg in 0..6u8 {
